@@ -15,9 +15,9 @@ non-decreasing in the pixel threshold, deleting a prediction never increases
 recall).
 
 Finding handled here:
-  F6  deleting a matched prediction that is not the last one processed in its
-      frame can raise recall (score-ordered greedy matching)
-      (selector delete_matched_not_last)
+  F6  deleting a matched prediction can raise recall when a prediction processed
+      later in its frame is eligible for the gt instance it frees (score-ordered
+      greedy matching)            (selector delete_frees_gt_for_later_prediction)
 """
 from __future__ import annotations
 
@@ -35,7 +35,7 @@ PREAMBLE = ("From SV Require Import C15.Oks C16.Metrics.\nFrom Coq Require Impor
             "Import ListNotations.\nOpen Scope Q_scope.\n")
 RENDER = "rresult"
 ATOL, RTOL = 1e-12, 1e-9
-SEL_F6 = "delete_matched_not_last"
+SEL_F6 = "delete_frees_gt_for_later_prediction"
 EPS = F(1, 2 ** 52)
 
 
@@ -431,6 +431,7 @@ def oracle_eval(c, out, impl):
         cross = any(v is not None and v >= 1 for M in c["M"] for i, row in enumerate(M) for j, v in enumerate(row)
                     if not same_instance(c, M, i, j))
         if cross:
+            c["_cross"] = True
             return None                                  # outside the theorem's hypothesis (coincident animals)
         n_gt = sum(len(g) for _, g in c["gtf"])
         if npairs != n_gt or out["fn"]:
@@ -483,11 +484,19 @@ def oracle_delete(c, out, out_del, fi, k, impl):
     worse = [i for i in range(n) if r1[i] > r0[i] + 1e-12]
     if not worse:
         return None
-    # selector: the deleted prediction was matched and is not the last one processed in its frame
-    matched = any(p == (fi, k) for _, p, _ in out["pairs"])
+    # selector (= complement of the hypothesis of c16_delete_prediction_partial): the deleted prediction was
+    # matched to a gt instance g, and a prediction processed later in the frame has OKS(g, .) > match threshold
     scores = [s for _, s in c["prf"][fi][1]]
-    later = any((scores[j] < scores[k]) or (scores[j] == scores[k] and j > k) for j in range(len(scores)) if j != k)
-    sel = SEL_F6 if (matched and later) else None
+    idx = c["prf"][fi][0]
+    sel = None
+    for g, p, _ in out["pairs"]:
+        if p == (fi, k):
+            gf, gk = g
+            row = c["M"][gf][gk]
+            later = [j for j in range(len(scores)) if j != k and
+                     ((scores[j] < scores[k]) or (scores[j] == scores[k] and j > k))]
+            if any(row[j] is not None and row[j] > c["thr"] for j in later):
+                sel = SEL_F6
     return (f"deleting prediction {k} of frame {c['prf'][fi][0]} raises recall {r0[worse[0]]} -> {r1[worse[0]]} "
             f"at match threshold {impl.thresholds(c)[0][worse[0]]}", sel)
 
@@ -506,7 +515,7 @@ def load_corpus():
 
 
 def case_json(c):
-    return enc({k: v for k, v in c.items() if k not in ("M", "impl", "base")})
+    return enc({k: v for k, v in c.items() if k not in ("M", "impl", "base", "_cross")})
 
 
 def check(run: core.Run) -> int:
@@ -569,6 +578,7 @@ def check(run: core.Run) -> int:
         bad = oracle_eval(c, out, impl) if in_domain else None
         if c["mode"] == "perfect":
             stats["perfect_cases"] += 1
+            stats["perfect_cross_pair_excluded"] += 1 if c.get("_cross") else 0
         if diff:
             disagree += 1
             if disagree <= 3:
@@ -617,7 +627,8 @@ def replay(run: core.Run, path: str) -> int:
     core.impl_env_setup()
     impl = Impl()
     rep = json.load(open(path))
-    c = dec(rep["case"])
+    c = dec(rep["case"] if "case" in rep else rep)
+    rep.setdefault("delete", c.get("delete"))
     c["M"] = impl.matrices(c)
     out = impl.run(c)
     bad = oracle_eval(c, out, impl)
